@@ -153,15 +153,23 @@ private def tInt : Ty := .s (.basic .int)
 private def tStr : Ty := .s (.basic .string)
 private def tN0 : Ty := .s (.named ⟨0, .int, [0]⟩)
 
-/-- F11: `for 1 {}` — the condition test sets the error and then calls `cond.rval.Bool()` -/
+/-- F11 (repaired): `for 1 {}` — the condition test records the error and leaves the clause; before the repair
+    `cond.rval.Bool()` ran on the constant and panicked. Regression examples: rejected with an error, in the domain. -/
 def progConstCond : Prog := main [.forS (.lit .int 1 false) .nil]
-theorem const_cond_panic_witness : verdictY progConstCond = .crash ∧ verdictG progConstCond = .err ∧ DomP progConstCond = false := by
+theorem const_cond_panic_witness : verdictY progConstCond = .err ∧ verdictG progConstCond = .err ∧ DomP progConstCond = true := by
   unfold verdictY DomP; rw [tcfacts_tie]; decide
 /-- `if "a" {}` -/
 def progConstCondIf : Prog := main [.ifS (.lit .string 0 false) .nil .nil]
-theorem const_cond_if_panic_witness : verdictY progConstCondIf = .crash ∧ verdictG progConstCondIf = .err := by
-  unfold verdictY; rw [tcfacts_tie]; decide
-theorem compile_never_panics_witness : ¬ CompileNeverPanics := fun h => h progConstCond const_cond_panic_witness.1
+theorem const_cond_if_panic_witness : verdictY progConstCondIf = .err ∧ verdictG progConstCondIf = .err ∧ DomP progConstCondIf = true := by
+  unfold verdictY DomP; rw [tcfacts_tie]; decide
+/-- the historical behaviour: with the fact `condBoolGuarded := false` the same program is a Go panic -/
+theorem const_cond_unguarded_panics :
+    (checkProg (rulesY { Expected.C12.tcFacts with condBoolGuarded := false }) progConstCond).verdict = .crash := by decide
+/-- the condition test is exact for every operand but `nil` (hypothesis on go/constant operands: see `cond_agree`) -/
+theorem cond_correct (x : Opnd) (hn : x.ty ≠ .nil)
+    (hcb : ∀ c, x.rv = .const c → Spec.kindIsG (· == .bool) x.ty = false) :
+    condY Generated.C12.tcFacts x = Spec.condG x := by
+  rw [tcfacts_tie]; exact cond_agree x hn hcb
 
 /-- `var a int; x := a && a` -/
 def progLand : Prog := main [.declz tInt, .define (.bin .land (.var 0) (.var 0))]
@@ -207,6 +215,7 @@ theorem interface_to_concrete_witness : verdictY progIface = .ok ∧ verdictG pr
 def progIndex : Prog := main [.declz tInt, .define (.index (.var 0) (.lit .int 0 false))]
 theorem index_non_indexable_witness : verdictY progIndex = .crash ∧ verdictG progIndex = .err := by
   unfold verdictY; rw [tcfacts_tie]; decide
+theorem compile_never_panics_witness : ¬ CompileNeverPanics := fun h => h progIndex index_non_indexable_witness.1
 
 /-- `var a int; var b int = nil` and `x := true + a` -/
 def progNil : Prog := main [.decl tInt .nil]
